@@ -191,3 +191,33 @@ pub open spec fn no_double_minus(s: Skel) -> bool
 pub open spec fn must_keep_parens(inner: Skel) -> bool {
     inner is Bin || (inner is Leaf && (inner->Leaf_0 is Call || inner->Leaf_0 is Varargs || inner->Leaf_0 is IfExpr))
 }
+
+// ---- long-bracket strings directly inside `[ ]` (C01: `[[` must not be re-lexed) ----
+pub open spec fn is_bracket_tok(t: TokenReference) -> bool {
+    match token_type_of(tr_token(t)) { TokenType::StringLiteral { quote_type, .. } => quote_type is Brackets, _ => false }
+}
+// the printed expression begins with a `[[…]]` / `[=[…]=]` string token
+pub open spec fn begins_with_bracket_string(e: Expression) -> bool
+    decreases e
+{
+    match e {
+        Expression::String(t) => is_bracket_tok(t),
+        #[cfg(feature = "luau")]
+        Expression::TypeAssertion { expression, .. } => begins_with_bracket_string(*expression),
+        Expression::BinaryOperator { lhs, .. } => begins_with_bracket_string(*lhs),
+        _ => false,
+    }
+}
+// ... or will, once redundant parentheses are removed
+pub open spec fn may_begin_with_bracket_string(e: Expression) -> bool
+    decreases e
+{
+    match e {
+        Expression::String(t) => is_bracket_tok(t),
+        #[cfg(feature = "luau")]
+        Expression::TypeAssertion { expression, .. } => may_begin_with_bracket_string(*expression),
+        Expression::BinaryOperator { lhs, .. } => may_begin_with_bracket_string(*lhs),
+        Expression::Parentheses { expression, .. } => may_begin_with_bracket_string(*expression),
+        _ => false,
+    }
+}
